@@ -722,6 +722,22 @@ def check(repo):
                 r1.instance(desc)
             else:
                 r1.ok(desc)
+        # the flag is set only after the durable steps of the operation (which can still refuse - the directory of an existing service,
+        # a full disk): a refused step otherwise leaves this client object claiming the step is done, and the next operation passes its guard
+        if op in expected_flag:
+            hcfg = cfg_of(fi.node)
+            store_nodes = [node.id for (f, node, e, st, chain) in it.records if f.key == fi.key and not chain and isinstance(e, tuple) and e[0] == "flag_store" and not e[3]]
+            data_nodes = [(node.id, e.name) for (f, node, e, st, chain) in it.records if f.key == fi.key and not isinstance(e, tuple) and e.kind == "fm" and
+                          not e.name.startswith(("read_", "check_")) and e.name != "write_service_meta"]
+            late = [(sn, wn, nm) for sn in store_nodes for (wn, nm) in data_nodes if sn != wn and hcfg.can_reach(sn, wn)]
+            if late:
+                sn, wn, nm = late[0]
+                r6.fail_fn(fi, hcfg.nodes[sn].stmt, "flag set before %s" % nm,
+                           "%s sets its flag (line %d) before FileManager.%s (line %d): if that step refuses or fails, the exception leaves this client object with the flag set "
+                           "for a step that did not happen, and the following operation on the same object is let through (e.g. a key generated into an existing service)" % (
+                               fi.name, hcfg.nodes[sn].line, nm, hcfg.nodes[wn].line))
+            else:
+                r6.ok({"operation": op, "rule": "flag store after the durable data steps"})
         # presence rows
         for w in expected_writes.get(op, ()):
             r1.require(w in seen_fm, fi, "presence %s" % w, "operation %s no longer performs %s" % (op, w))
@@ -744,6 +760,14 @@ def check(repo):
         _check_echo_handler(repo, r1, fm, fi, flag)
         _check_persist_after_store(repo, r6, fi)
     _check_client_loader(repo, r6)
+    bad_w, n_w = F.writers_persist_unconditionally(repo, F.CLI_FM)
+    r6.require(n_w >= 4, repo.func(F.CLI, "Service._store_service_meta"), "artifact writers found", "only %d artifact writers found in the client file manager" % n_w)
+    for wfi, why in bad_w:
+        r6.fail_fn(wfi, wfi.node, "%s skips the write" % wfi.name,
+                   "%s returns without writing its argument although the service directory exists (path taken under [%s]): the step is recorded as done, "
+                   "but the key / index / flags it produced are not what is on disk" % (wfi.name, why))
+    if not bad_w:
+        r6.ok({"file_manager": F.CLI_FM, "writers": n_w})
 
     r2 = Rule("R11.2", "no dropped check: predicate results are used; validity check guards creation")
     rules.append(r2)
